@@ -214,6 +214,28 @@ for _k, _v in _ADDED4.items():
     PROPS[_k]["rule"] += " Added in the fourth session: " + _v + "."
 TRUSTED_BASE.append("hooks in /repo (cfg sdjwt_verif; src/verif_hooks.rs and a verif_hooks module at the end of issuer.rs / decoding.rs; build.rs declares the cfg name): thin wrappers that make crate-private functions callable, no behaviour of their own")
 
+# round 10 (size and count thresholds)
+_LARGE = "large documents (gen::large_claims_and_marking: arrays of 300 and of 10000+ elements with disclosable elements at indices of one to five digits, 260-330 disclosable members at top level and in a nested object, names and values of 2-8 KB, nesting of 30-55 levels, 12-17 arrays of objects with nested marks, integer limits, digests deep inside disclosed values with more than 32 disclosures; up to 1000 decoys)"
+_ADDED5 = {
+    "C01": _LARGE,
+    "C02": _LARGE + ", presented with redactions",
+    "C03": _LARGE + " issued by the reference issuer, all disclosures in any order",
+    "C04": "RSA keys handed over as modulus and exponent with the exponent padded by zero octets (same key: accept) or changed in a high octet only, at 2^24, 2^32, 2^64, 2^128 (another key: reject)",
+    "C05": "one round in five of every tampering kind carries a portrait of 5-12 KB, disclosable or not (presentations beyond 8 KB)",
+    "C06": _LARGE + ", disclosures of every presentation judged",
+    "C07": _LARGE + " through the independent verifier; Disclosure::build on values of 1-20 KB; claims that are not a JSON object must be refused (finding F29)",
+    "C08": _LARGE + " from the reference issuer through Holder::verify / Verifier::verify / presentation",
+    "C09": "one bound presentation in eight carries a portrait of 3-12 KB (the text the KB-JWT commits to is longer than any block of a streaming hasher)",
+    "C10": "cnf keys whose exponent has 0-300 octets and whose modulus has any length, with and without a KB-JWT, through verify_kb and Verifier::verify",
+    "C12": "disclosure arrays of 258, 259, 514, 515 and 65539 elements referenced from a digest list (lengths that are 2 or 3 modulo 256 / 65536)",
+    "C13": "history statistic on nested digest lists of 320 entries (in the payload and inside a disclosed value): the claim marked last must not sit in the first quarter, nor the claim marked first in the last quarter, in more than 60% of the issuances",
+    "C14": _LARGE + " as valid preconditions; claims that are not a JSON object are an error (finding F29), never a panic",
+    "C15": "sequences of 1100 and 66000 items with tagged items at indices of one to five digits (255/256, 9999/10000, 32767/32768, 65535/65536)",
+    "C16": "an issuer that issued once under another header and was then given K headers in a row, K in 2, 16, 17, 255, 256, 257, 512, 65536; the token carries the last one",
+}
+for _k, _v in _ADDED5.items():
+    PROPS[_k]["rule"] += " Added in round 10: " + _v + "."
+
 def matches(k, line, verdict, wire_try):
     """does known finding k (an entry of known_findings.json) cover this failing case?"""
     m = k.get("matcher", {})
